@@ -17,18 +17,39 @@ COMPONENTS = {
     'reference': ['sim/ref_format.py', 'sim/history.py model'],
 }
 ASSUMPTIONS = ['crash-free histories', 'directory enumeration order changes between snapshots (seeded)', 'duplicate transfers of one chunk by two concurrent workers inside one snapshot are not counted (objects, not transfers)']
-PROBES = ['delete', 'clean']
+PROBES = ['megabytes_two_concurrencies', 'delete', 'clean']
 TIERS = {'quick': {'budget_s': 70, 'batch': 10}, 'thorough': {'budget_s': 900, 'batch': 20}}
 ORACLES = ('store', 'exact', 'dedup')
 
 
 def gen_case(seed, tier):
     case = history.gen_history(seed, 'c07', max_users=4 if tier == 'thorough' else 3, nops=(3, 24) if tier == 'thorough' else (3, 10), destructive=True, overlap=False, reads=False, many=0.08, services=True)
+    from sim.core import substream
+    brng = substream(seed, 'c07-big')
+    if brng.random() < 0.012:
+        # megabytes of unchanged data under shipped-size chunking, backed up twice by two holders of the key family who
+        # work with different concurrency (whatever a command derives from its concurrency must not move chunk boundaries)
+        enc = case['settings'].get('encryption') is not None
+        case['settings']['chunking'] = {'min_length': 128_000, 'max_length': 5_120_000}
+        case['contents'] = [f'rand:{seed}:{brng.randrange(5_000_000, 15_000_000)}', f'rand:{seed + 1}:{brng.randrange(1, 5000)}']
+        u0 = dict(case['users'][0], N=brng.choice([1, 2, 3]))
+        u1 = dict(u0, rel='shared' if enc else 'same', parent=0, N=brng.choice([4, 5, 8]), password=u0['password'] + 'x')
+        case['users'] = [u0, u1]
+        files = {'big.bin': 0, 'small.bin': 1}
+        order = [0, 1] if brng.random() < 0.5 else [1, 0]
+        case['ops'] = [{'op': 'snapshot', 'u': order[0], 'files': files, 'at': 1.0, 'mt': 1_500_000_000, 'note': None},
+                       {'op': 'snapshot', 'u': order[1], 'files': dict(files), 'at': 2.0, 'mt': 1_500_000_000, 'note': None}]
+        case['live'], case['shared_object'], case['backend'], case['lat_kind'] = [], False, None, 'zero'
+        case['big'] = True
     return case
 
 
 def run_case(case):
-    return history.History(case, 'c07', ORACLES).run()
+    H = history.History(case, 'c07', ORACLES)
+    if case.get('big'):
+        H.W.env.block_size = 128_000
+        H.probe('megabytes_two_concurrencies')
+    return H.run()
 
 
 def shrink(case):
